@@ -256,6 +256,74 @@ let () =
   Hashtbl.replace classifiers "parse" classify_parse;
   Hashtbl.replace classifiers "eval" classify_eval
 
+(* ---------- sym / evalx / evalid: the NamedSymbol layer ---------- *)
+(* sym i1 name1 i2 name2 : in the model a variable is its id (nat); the name is what Display prints *)
+let op_sym (args : sx) : string =
+  match args with
+  | L [i1; n1; i2; _] ->
+      let a = nat_atom i1 and b = nat_atom i2 in
+      let eq = Nat.eqb a b in
+      let cmp = if eq then "eq" else if Nat.ltb a b then "lt" else "gt" in
+      Printf.sprintf "(ok %d %s %s 1 %d %d %s)" (if eq then 1 else 0) cmp cmp (if eq then 1 else 0) (int_of_nat a) (show_name (name_of_sx n1))
+  | _ -> raise (Bad "sym")
+let classify_sym (_ : sx) (real : string) (_ : string) : string = if real = "(panic)" then "panic" else "symbol"
+
+(* evalx text1 text2 : both evaluated under the default order, then combined by the model's connectives *)
+let model_eval_default (txt : sx) : bdd option option =
+  let (uc, cps) = text_of txt in
+  match parsed_formula uc [] cps with
+  | Done p -> Some (eval_f (eval_fuel_for cps) p.pf_form)
+  | _ -> None
+let evalx_results (d1 : bdd) (d2 : bdd) : bdd list =
+  [band d1 d2; bor d1 d2; beq d1 d2; bxor d1 d2; bimplies d1 d2; band d2 d1; bite d2 d1 (bnot d1)]
+let op_evalx (args : sx) : string =
+  match args with
+  | L [t1; t2] ->
+      (match model_eval_default t1, model_eval_default t2 with
+       | Some (Some d1), Some (Some d2) -> "(ok " ^ String.concat " " (List.map bdd_str (evalx_results d1 d2)) ^ ")"
+       | Some None, _ | _, Some None -> "(diverge)"
+       | _ -> "(err)")
+  | _ -> raise (Bad "evalx")
+let classify_evalx (_ : sx) (real : string) (model : string) : string =
+  if real = "(panic)" then "panic"
+  else
+    let parse_res s = match (try Some (parse_sx s) with Bad _ -> None) with
+      | Some (L (A "ok" :: bs)) -> `Ok (List.map bdd_raw bs)
+      | Some (L [A "err"]) -> `Err
+      | Some (L [A "diverge"]) -> `Div
+      | _ -> `Other in
+    match parse_res real, parse_res model with
+    | `Ok rs, `Ok ms when List.length rs = List.length ms ->
+        let parts = ref [] in
+        List.iter2 (fun r m ->
+          if not (robddb r) && not (List.mem "shape" !parts) then parts := "shape" :: !parts;
+          (match find_diff_any r m with
+           | Some w -> if not (List.exists (fun p -> String.length p > 3 && String.sub p 0 3 = "sem") !parts) then parts := ("sem " ^ show_alist w) :: !parts
+           | None -> ())) rs ms;
+        if !parts = [] then "holds" else String.concat " " (List.rev !parts)
+    | `Err, `Ok _ | `Ok _, `Err -> "accept"
+    | `Div, `Ok _ -> "no-result"
+    | `Ok _, `Div -> "model-diverges"
+    | _ -> "unclassified"
+
+(* evalid ((name id)..) text mode : ids are arbitrary decimal numerals; both sides work with their ranks *)
+let rank_args (args : sx) : sx =
+  match args with
+  | L [ord; txt; _mode] ->
+      let ids = List.map (function L [_; A id] -> id | _ -> raise (Bad "evalid ordering")) (list_of ord) in
+      let cmp a b = if String.length a <> String.length b then compare (String.length a) (String.length b) else compare a b in
+      let sorted = List.sort_uniq cmp ids in
+      let rank id = let rec go k = function [] -> raise (Bad "rank") | x :: r -> if x = id then k else go (k + 1) r in go 0 sorted in
+      let ord' = L (List.map (function L [nm; A id] -> L [nm; A (string_of_int (rank id))] | _ -> raise (Bad "evalid ordering")) (list_of ord)) in
+      L [ord'; txt]
+  | _ -> raise (Bad "evalid")
+let op_evalid (args : sx) : string = op_eval (rank_args args)
+let classify_evalid (args : sx) (real : string) (model : string) : string = classify_eval (rank_args args) real model
+let () =
+  Hashtbl.replace table "sym" op_sym; Hashtbl.replace classifiers "sym" classify_sym;
+  Hashtbl.replace table "evalx" op_evalx; Hashtbl.replace classifiers "evalx" classify_evalx;
+  Hashtbl.replace table "evalid" op_evalid; Hashtbl.replace classifiers "evalid" classify_evalid
+
 (* ---------- raw byte texts (S-robust): strict UTF-8 decoding as Rust's read_to_string does it ---------- *)
 exception Invalid_utf8
 let decode_utf8 (b : int array) : int list =
@@ -433,9 +501,26 @@ let classify_hist (_ : sx) (real : string) (_ : string) : string =
   else if starts "(env-invariant" then "sharing"
   else if starts "(panic" || starts "(step-failed" then "no-result"
   else "result"
+(* histf text.. : each text evaluated under the default order (the model has no environment: results are values) *)
+let op_histf (args : sx) : string =
+  let buf = Buffer.create 256 in
+  Buffer.add_string buf "(ok";
+  let rec go i = function
+    | [] -> Buffer.add_char buf ')'; Buffer.contents buf
+    | t :: r ->
+        let (uc, cps) = text_of t in
+        (match parsed_formula uc [] cps with
+         | Done p ->
+             (match eval_f (eval_fuel_for cps) p.pf_form with
+              | Some b -> Buffer.add_char buf ' '; show_bdd buf b; go (i + 1) r
+              | None -> "(step-failed (diverge))")
+         | _ -> Printf.sprintf "(err %d)" i) in
+  go 0 (list_of args)
+let () = Hashtbl.replace table "histf" op_histf
 let () =
   Hashtbl.replace table "hist" op_hist; Hashtbl.replace table "heap" op_heap;
-  Hashtbl.replace classifiers "hist" classify_hist; Hashtbl.replace classifiers "heap" classify_hist
+  Hashtbl.replace classifiers "hist" classify_hist; Hashtbl.replace classifiers "heap" classify_hist;
+  Hashtbl.replace classifiers "histf" classify_hist
 
 (* ---------- S-dot ---------- *)
 let sort_uniq_str l = List.sort_uniq compare l
